@@ -24,6 +24,9 @@ META = {
 }
 
 
+THREAD_REPLICA = False   # this monitor uses a process-wide sys.monitoring probe / has its own thread trials
+
+
 def shards(tier):
     out = []
     for name, path in D.dat_files():
